@@ -1,9 +1,31 @@
-(* macros/src/utils.rs: parse_docs — doc attribute values rendered as one JSDoc block. *)
+(* macros/src/utils.rs: parse_docs — doc attribute values rendered as one JSDoc block, and
+   escape_doc, which keeps the text inside the block. *)
 From TsRs Require Import Base.Str.
+
+Definition star : char := 42.
+Definition fslash : char := 47.
+Definition bslash : char := 92.
+
+(* `text.replace("*/", "*\\/")`: non-overlapping matches, left to right *)
+Fixpoint esc_close (s : str) : str :=
+  match s with
+  | c1 :: ((c2 :: r) as t) =>
+      if (c1 =? star) && (c2 =? fslash) then star :: bslash :: fslash :: esc_close r
+      else c1 :: esc_close t
+  | _ => s
+  end.
+
+Definition escape_doc (s : str) : str :=
+  let t := esc_close s in
+  match t with
+  | c :: _ => if c =? fslash then 32 :: t else t
+  | [] => t
+  end.
 
 Definition doc_line (l : str) : str := lit " *" ++ l.
 
 Definition parse_docs (ls : list str) : str :=
+  let ls := map escape_doc ls in
   match ls with
   | [] => []
   | [one] =>
